@@ -260,9 +260,13 @@ def random_script(rng, U=2, nprocs=None, maxlen=30, hostile=0.15, shutdown=0.25,
                 elif kind < 0.87:
                     acts.append(['rpc', req, 'stopall', rng.choice([0, 1])])
                 elif kind < 0.92:
-                    acts.append(['rpc', req, 'startgroup', rng.randrange(ng + 1), rng.choice([0, 1])])
+                    acts.append(['rpc', req, 'startgroup', rng.randrange(ng + 1), rng.choice([0, 1]), rng.choice([0, 0, 1, 2])])
                 else:
-                    acts.append(['rpc', req, 'stopgroup', rng.randrange(ng + 1), rng.choice([0, 1])])
+                    acts.append(['rpc', req, 'stopgroup', rng.randrange(ng + 1), rng.choice([0, 1]), rng.choice([0, 0, 1, 2])])
+                if rng.random() < 0.04:
+                    # a bare process name (no group part) names no process here: BAD_NAME, like an unknown index
+                    req += 1
+                    acts.append(['rpc', req, rng.choice(['start', 'stop']), n, rng.choice([0, 1]), rng.randrange(n)])
             elif r < 0.85:
                 acts.append(['poll'])
             else:
